@@ -182,7 +182,12 @@ func fixStdlib(interp *Interpreter) {
 	interp.mapTypes[p["Scanln"]] = interp.mapTypes[reflect.ValueOf(fmt.Scanln)]
 
 	if p = interp.binPkg["flag"]; p != nil {
-		c := flag.NewFlagSet(os.Args[0], flag.PanicOnError)
+		// The command line of the script is the one of the interpreter, not the one of the host.
+		prog := ""
+		if len(interp.args) > 0 {
+			prog = interp.args[0]
+		}
+		c := flag.NewFlagSet(prog, flag.PanicOnError)
 		c.SetOutput(stderr)
 		p["CommandLine"] = reflect.ValueOf(&c).Elem()
 	}
